@@ -5,6 +5,7 @@ import (
 	"go/ast"
 	"go/parser"
 	"go/token"
+	"runtime"
 	"sort"
 	"strings"
 	"sync"
@@ -398,6 +399,8 @@ func c13(args []string) int {
 	// ---- leg 2: differential locality on generated declarations (no expectations needed): the diagnostics
 	// of a declaration are the same alone, before and after any other declaration of the scale family
 	c13Pairs(ev, tier)
+	// ---- leg 3: reordering plain functions in packages whose struct types embed each other in every way
+	c13Graphs(ev)
 
 	ev.Set("example_files", nfiles)
 	ev.Set("variants_run", ran)
@@ -409,6 +412,103 @@ func c13(args []string) int {
 	ev.Cap("function permutations are complete up to 5 functions per file (6 thorough); beyond that rotations, the reversal and adjacent transpositions")
 	_ = progenum.Apply
 	return ev.Finish()
+}
+
+// c13Graphs: one file holding the types of a type-graph package and its use-site functions in every order; the
+// diagnostics of a function (by name, message and line relative to the function) must not depend on the order.
+func c13Graphs(ev *evidence.Run) {
+	var mu sync.Mutex
+	graphs, orders := 0, 0
+	jobs := make(chan progenum.Prog, 64)
+	var wg sync.WaitGroup
+	for w := 0; w < runtime.GOMAXPROCS(0); w++ {
+		wg.Add(1)
+		go func() {
+			defer wg.Done()
+			set, err := harness.NewSet(harness.Infos(nil), "")
+			if err != nil {
+				panic(err)
+			}
+			for p0 := range jobs {
+				p := progenum.ValidUseFiles(p0)
+				if len(p.Files) < 3 {
+					continue
+				}
+				types := p.Files[0].Src
+				var fns []string
+				for _, f := range p.Files[1:] {
+					fns = append(fns, strings.TrimPrefix(f.Src, "package eg\n\n"))
+				}
+				var ref map[string][]string
+				bad := false
+				permute(len(fns), func(perm []int) {
+					if bad {
+						return
+					}
+					src := types
+					for _, k := range perm {
+						src += "\n" + fns[k]
+					}
+					pk := harness.Load("eg", []harness.File{{Name: "f.go", Src: src}})
+					defer pk.Release()
+					if len(pk.Errs) > 0 {
+						return
+					}
+					d, _ := set.VisitAll(pk)
+					// attribute each diagnostic to the function it lies in (by line ranges of the rendered chunks)
+					got := map[string][]string{}
+					lines := strings.Split(src, "\n")
+					fnAt := make([]string, len(lines)+2)
+					cur := ""
+					for li, l := range lines {
+						if strings.HasPrefix(l, "func use") {
+							cur = l[5:strings.Index(l, "(")]
+						} else if strings.HasPrefix(l, "type ") || strings.HasPrefix(l, "func (") {
+							cur = ""
+						}
+						fnAt[li+1] = cur
+					}
+					for _, x := range d {
+						if x.Line < len(fnAt) && fnAt[x.Line] != "" {
+							got[fnAt[x.Line]] = append(got[fnAt[x.Line]], x.Checker+": "+x.Text)
+						}
+					}
+					for k := range got {
+						sort.Strings(got[k])
+					}
+					mu.Lock()
+					orders++
+					mu.Unlock()
+					ev.Eval(1)
+					if ref == nil {
+						ref = got
+						return
+					}
+					for _, name := range []string{"use0", "use1", "use2"} {
+						if strings.Join(ref[name], "|") != strings.Join(got[name], "|") {
+							bad = true
+							ch := "?"
+							if all := append(append([]string{}, ref[name]...), got[name]...); len(all) > 0 {
+								ch = strings.SplitN(all[0], ":", 2)[0]
+							}
+							ev.Violate(evidence.Violation{Key: ch + "|permute|type-graph", What: "diagnostics of a function change when plain functions of the file are reordered (types that embed each other)",
+								Observed: fmt.Sprintf("%s order %v, function %s\nfirst order: %v\nthis order:  %v", p.ID, perm, name, ref[name], got[name]), Replay: map[string]interface{}{"path": "eg", "files": map[string]string{"f.go": src}}})
+							return
+						}
+					}
+				})
+				mu.Lock()
+				graphs++
+				mu.Unlock()
+				ev.Nontrivial("type-graph|" + p.ID)
+			}
+		}()
+	}
+	progenum.EmbedGraphs(2, 3, func(p progenum.Prog) { jobs <- p })
+	close(jobs)
+	wg.Wait()
+	ev.Set("type_graph_packages_reordered", graphs)
+	ev.Set("type_graph_orders", orders)
 }
 
 func c13Pairs(ev *evidence.Run, tier string) {
